@@ -349,7 +349,7 @@ def replay(ctx, case):
 
 
 SUBS = [
-    Sub("programs", run, replay, quick=150, thorough=3000, min_per_shard=5),
-    Sub("subprocess", run_subprocess, replay, quick=12, thorough=120,
+    Sub("programs", run, replay, quick=150, thorough=15000, min_per_shard=5),
+    Sub("subprocess", run_subprocess, replay, quick=12, thorough=600,
         shards=6, min_per_shard=2),
 ]
